@@ -75,3 +75,43 @@ Definition revert_tag (ta : vtable) (L : rlive) (v : vrow) (article : bool) : rl
       | None => L1
       end
     else L1.
+
+(* ------------------------------------------------------------------ dotted paths
+   Reverter descends: revert_child builds a Reverter for every related version with the paths below the
+   relationship's name (reverter.py first_level / subpaths); an entity that was visited already is not reverted
+   again.  `reach` lists the versions such a call visits when no entity is reached twice: one node per reverted
+   version with the relationship names that continue below it.  Relationship codes: *)
+Definition R_TAGS : Z := 0.      (* Article.tags      one-to-many  *)
+Definition R_LABELS : Z := 1.    (* Article.labels    many-to-many *)
+Definition R_ARTICLE : Z := 2.   (* Tag.article       many-to-one  *)
+Definition R_ARTICLES : Z := 3.  (* Label.articles    many-to-many, other side *)
+
+Definition heads (paths : list (list Z)) : list Z :=
+  flat_map (fun p => match p with [] => [] | h :: _ => [h] end) paths.
+Definition subpaths (paths : list (list Z)) (r : Z) : list (list Z) :=
+  flat_map (fun p => match p with
+                     | h :: ((_ :: _) as t) => if h =? r then [t] else []
+                     | _ => [] end) paths.
+
+Record rtabs := mkrt { t_art : vtable; t_tag : vtable; t_lab : vtable; t_av : list lnk }.
+Record rnode := mkrn { rn_cls : nat; rn_key : Z; rn_tx : Z; rn_heads : list Z }.
+Definition swap_lnk (a : lnk) : lnk := mklnk (k_r a) (k_l a) (k_tx a) (k_op a).
+Definition in_heads (hs : list Z) (r : Z) : bool := existsb (Z.eqb r) hs.
+
+Fixpoint reach (fuel : nat) (T : rtabs) (root : nat * Z) (c : nat) (v : vrow) (paths : list (list Z)) : list rnode :=
+  match fuel with
+  | O => []
+  | S f =>
+      let hs := heads paths in
+      let kids (r : Z) (c' : nat) (vs : vtable) : list rnode :=
+        if in_heads hs r
+        then flat_map (fun ch => if (c' =? fst root)%nat && (key0 ch =? snd root) then []   (* back at the root: visited *)
+                                 else reach f T root c' ch (subpaths paths r)) vs
+        else [] in
+      mkrn c (key0 v) (vtx v) hs ::
+      match c with
+      | 0%nat => kids R_TAGS 1%nat (rel_o2m 1 (t_tag T) v) ++ kids R_LABELS 2%nat (rel_m2m (t_av T) (t_lab T) v)
+      | 1%nat => kids R_ARTICLE 0%nat (match rel_m2o 1 (t_art T) v with Some p => [p] | None => [] end)
+      | _ => kids R_ARTICLES 0%nat (rel_m2m (map swap_lnk (t_av T)) (t_art T) v)
+      end
+  end.
